@@ -2,6 +2,7 @@ package verifsim
 
 import (
 	"math/rand/v2"
+	"time"
 )
 
 // c15.hdr: header and trailer calls concurrent with sends, on both sides: the handler
@@ -38,6 +39,20 @@ func genC15Hdr(g *rand.Rand, tier string) any {
 		c.CProg = []Op{{K: 'f', A: []Op{{K: 's'}, {K: 'c'}}, B: []Op{{K: 'h'}, {K: 'R'}, {K: 't'}}}}
 		p.Calls = append(p.Calls, c)
 		p.Callers = append(p.Callers, Caller{Conn: 0, Calls: []int{c.ID}})
+	}
+	if g.IntN(2) == 0 {
+		// a call the peer finishes before its caller has touched the stream object (a
+		// handler, or an interceptor, that refuses it at once): whatever the library sets
+		// on the stream after creating it meets the stream's end-of-life code
+		for k := 1 + g.IntN(2); k > 0; k-- {
+			c := &CallSpec{ID: len(p.Calls) + 1, Kind: []int{KSStream, KCStream, KBidi}[g.IntN(3)], MsgLen: 16, CSendN: 1, Stub: true, Early: true}
+			c.CProg = []Op{{K: 'z', D: time.Millisecond}, {K: 's'}, {K: 'c'}, {K: 'R'}}
+			if g.IntN(2) == 0 {
+				c.HStatus = &StatusSpec{Code: 7, Msg: "refused"}
+			}
+			p.Calls = append(p.Calls, c)
+			p.Callers = append(p.Callers, Caller{Conn: 0, Calls: []int{c.ID}})
+		}
 	}
 	return p
 }
